@@ -18,7 +18,12 @@ var envWords = "nocheck cross stage1 nodoc all any amd64 i386 yes 1 terse parall
 
 var reEnvName = regexp.MustCompile(`^[A-Z][A-Z0-9_]{2,40}$`)
 
+// OrigEnv is the environment the harness was started with; child processes (lake, lean,
+// clang, the Lean driver) get this one, not the hostile one the library under test sees.
+var OrigEnv []string
+
 func init() {
+	OrigEnv = os.Environ()
 	// a named local time zone with a non-zero offset: results that silently depend on
 	// time.Local differ from the reference
 	time.Local = time.FixedZone("EST", -5*3600)
